@@ -314,6 +314,7 @@ namespace Attach
       (mkdir attachments dir if missing)
                                                                                -- release
   yield path   → the caller writes the file                                    -- writeFile
+               (the caller's body raises, before or after writing: the generator is left, nothing below runs  -- abort)
   self._flush_pending_events(); self.event_manager.fire(LogAttachmentEvent(…)) -- fireEvent
 
   `+= 1` on an attribute is a read followed by a write (two byte codes); both are modelled.
@@ -333,7 +334,7 @@ inductive PC
   | written (n : Nat)
 deriving DecidableEq, Repr
 
-inductive Act | acquire | readName | readInc | writeInc | release | writeFile | fireEvent
+inductive Act | acquire | readName | readInc | writeInc | release | writeFile | fireEvent | abort
 deriving DecidableEq, Repr
 
 structure St where
@@ -383,6 +384,13 @@ def step (useLock : Bool) (s : St) (t : Nat) : Act → Option St
   | .fireEvent =>
     match s.pc t with
     | .written n => some { setPc s t .idle with events := s.events ++ [n] }
+    | _ => none
+  | .abort =>
+    -- the caller's `with` body raised (before or after it wrote the file): the exception is thrown into the
+    -- generator at its `yield` and leaves it — no flush, no event; the number stays handed out
+    match s.pc t with
+    | .released _ => some (setPc s t .idle)
+    | .written _ => some (setPc s t .idle)
     | _ => none
 
 /-- an interleaving: accepted iff every step is enabled when it is taken -/
